@@ -47,13 +47,19 @@ func corpus(k int) *wd.Input {
 				{ID: 51, Members: []osm.Member{{Type: osm.ElementTypeRelation, ID: 50}}, Tags: []osm.Tag{{Key: "type", Value: "route"}}},
 				{ID: 52, Members: []osm.Member{{Type: osm.ElementTypeWay, ID: 10, Role: "outer"}}, Tags: []osm.Tag{{Key: "type", Value: "multipolygon"}}},
 			}}
+	case 6: // referrers through several steps, and of ids without a feature (way 14, node 9, relation 70 are absent)
+		return &wd.Input{Nodes: sq, Ways: []osm.Way{way(10, []int{1, 2, 3, 4, 1}), way(11, []int{5, 1})},
+			Relations: []osm.Relation{
+				{ID: 50, Members: []osm.Member{{Type: osm.ElementTypeWay, ID: 11}, {Type: osm.ElementTypeWay, ID: 14}, {Type: osm.ElementTypeNode, ID: 9}}, Tags: []osm.Tag{{Key: "type", Value: "route"}}},
+				{ID: 51, Members: []osm.Member{{Type: osm.ElementTypeRelation, ID: 50}, {Type: osm.ElementTypeRelation, ID: 70}, {Type: osm.ElementTypeWay, ID: 10}}, Tags: []osm.Tag{{Key: "type", Value: "route"}}},
+			}}
 	case 5: // closed way whose first node is missing (crashed the in-memory builder before C37's fix)
 		return &wd.Input{Nodes: sq[1:], Ways: []osm.Way{way(10, []int{1, 2, 3, 1})}}
 	}
 	return nil
 }
 
-const nCorpus = 6
+const nCorpus = 7
 
 func caseChild(arg string) string {
 	f := strings.Fields(arg)
